@@ -93,6 +93,21 @@ class NPLinalg:
         used("np.linalg.inv")
         return minv(lift(m))
 
+    def det(self, m):
+        """uninterpreted determinant (congruent in the matrix)"""
+        used("np.linalg.det")
+        m = lift(m)
+        if not isinstance(m, Arr) or m.ndim < 2:
+            raise ShapeError("determinant of a non-matrix")
+        n, nb = m.shape[-1], m.ndim - 2
+
+        def fn(*idx):
+            vi, vj = T.bounded_var(n, "mi"), T.bounded_var(n, "mj")
+            body = P(m.fn(*(list(idx) + [vi, vj])))
+            lam = T.close_raw("lam", vi, None, T.close_raw("lam", vj, None, body))
+            return T.app("det", n, lam)
+        return Arr(m.shape[:-2], fn, "real", m.kind) if nb else fn()
+
     def solve(self, a, b):
         used("np.linalg.solve")
         a, b = lift(a), lift(b)
@@ -119,6 +134,23 @@ def minv(m):
             body = P(m.fn(*(b + [ZERO, ZERO])))
         else:
             body = P(m.fn(*(b + [vi, vj])))
+        # (c M)^-1 = c^-1 M^-1 for a scalar c: a factor common to every entry (free of the two matrix indices) is pulled out
+        scale = ONE
+        if P(n).as_int() != 1 and body.terms:
+            bound_names = set(vi.syms) | set(vj.syms)
+            common = None
+            for mono, _c in body.terms:
+                d = {a_: p_ for a_, p_ in mono if not (a_.syms & bound_names) and not a_.hasbv and a_.kind in ("sym", "app")}
+                common = d if common is None else {a_: p_ for a_, p_ in common.items() if d.get(a_) == p_}
+            for a_, p_ in (common or {}).items():
+                f_ = Poly.atom(a_) ** p_
+                scale = scale * f_
+                body = body * (Poly.atom(a_) ** (-p_))
+        if scale is not ONE:
+            inner = Arr(m.shape, lambda *ix: T.subst(T.subst(body, {list(vi.syms)[0]: P(ix[nb])}), {list(vj.syms)[0]: P(ix[nb + 1])}) if nb == 0 else None, "real", m.kind)
+            if nb == 0:
+                return P(minv(inner).fn(i, j)) * (scale ** -1)
+            body = body * scale
         lam = T.close_raw("lam", vi, None, T.close_raw("lam", vj, None, body))
         if P(n).as_int() != 1:
             # the inverse of a symmetric matrix is symmetric (trusted): canonical order of the two indices
@@ -419,6 +451,10 @@ class NP:
         used("np.argmin")
         return lift(x).argmin(axis=axis)
 
+    def argmax(self, x, axis=None, **kw):
+        used("np.argmax")
+        return lift(x).argmax(axis=axis)
+
     def bincount(self, idx, weights=None, minlength=0):
         used("np.bincount")
         if weights is not None:
@@ -556,8 +592,42 @@ class NP:
     def allclose(self, *a, **k):
         raise ModelError("np.allclose")
 
-    def isclose(self, *a, **k):
-        raise ModelError("np.isclose")
+    def isclose(self, a, b, rtol=1e-05, atol=1e-08, equal_nan=False):
+        used("np.isclose")
+        rt, at = P(rtol), P(atol)
+        return ewise(lambda x, y: T.cmp_cond("<=", T.mk_abs(P(x) - P(y)), at + rt * T.mk_abs(P(y))), lift(a), lift(b), dtype="bool")
+
+    def any(self, x, axis=None, **kw):
+        used("np.any")
+        x = lift(x)
+        if not isinstance(x, Arr):
+            return T.cmp_cond("!=", P(x), ZERO) if isinstance(x, Poly) else (C(x) if isinstance(x, T.Cond) else bool(x))
+        return x.any(axis=axis)
+
+    def all(self, x, axis=None, **kw):
+        used("np.all")
+        x = lift(x)
+        if not isinstance(x, Arr):
+            return T.cmp_cond("!=", P(x), ZERO) if isinstance(x, Poly) else (C(x) if isinstance(x, T.Cond) else bool(x))
+        return x.all(axis=axis)
+
+    def isfinite(self, x):
+        """real-valued terms denote finite numbers; the floats inf / nan are the only non-finite values of the model;
+        a symbol declared 'maybe infinite' (T.EXTENDED) gives an undetermined condition"""
+        used("np.isfinite")
+        x = lift(x)
+
+        def fin(v):
+            if isinstance(v, float):
+                return v == v and v not in (float("inf"), float("-inf"))
+            if isinstance(v, Poly):
+                ext = [n for n in v.syms if n in T.EXTENDED]
+                if ext:
+                    return T.cmp_cond("==", T.app("isfinite", v, sort="int"), ONE)
+            return True
+        if isinstance(x, Arr):
+            return ewise(lambda v: C(fin(v)), x, dtype="bool")
+        return fin(x)
 
 
 class Concat:
